@@ -357,20 +357,20 @@ def sends_cancel_id(F, P, f, bb, t):
     return out
 
 
-def result_of(P, x, callterm):
+def result_of(P, x, callterm, through=()):
     """does term x denote (possibly among alternatives) the result of the call `callterm`, looking
     through copies / conversions but without inlining the callee?"""
     if x == callterm:
         return True
     if x[0] == 'phi':
-        return any(result_of(P, y, callterm) for y in x[1])
+        return any(result_of(P, y, callterm, through) for y in x[1])
     if x[0] in ('ref', 'deref'):
-        return result_of(P, x[1], callterm)
+        return result_of(P, x[1], callterm, through)
     if x[0] == 'call':
         name = P.call_name(x) or ''
-        if any(name == n or name.endswith('::' + n) for n in ('std::ops::Try::branch', 'std::convert::Into::into', 'std::convert::From::from')):
+        if any(name == n or name.endswith('::' + n) for n in ('std::ops::Try::branch', 'std::convert::Into::into', 'std::convert::From::from') + tuple(through)):
             a = P.call_args(x)
-            return bool(a) and result_of(P, a[0], callterm)
+            return bool(a) and result_of(P, a[0], callterm, through)
     return False
 
 
@@ -399,6 +399,12 @@ def cmp_facts(F, P, f, bb):
         n = 0
         while t[0] == 'un' and t[1] == 'Not' and n < 4:
             t, pol, n = t[2], not pol, n + 1
+        if t[0] == 'call' and callee_is(P.call_term(t), 'PartialOrd::gt', 'PartialOrd::lt', 'PartialOrd::ge', 'PartialOrd::le', 'PartialEq::eq', 'PartialEq::ne'):
+            # comparison of non-primitive values (Duration, Instant): a trait call instead of a MIR binary operation
+            nm = strip_generics(P.call_term(t)['callee']).split('::')[-1]
+            ca = P.call_args(t)
+            if len(ca) == 2:
+                t = ('bin', {'gt': 'Gt', 'lt': 'Lt', 'ge': 'Ge', 'le': 'Le', 'eq': 'Eq', 'ne': 'Ne'}[nm], ca[0], ca[1])
         if t[0] == 'call':
             # a bool-returning local helper whose result is one comparison (operands come back bound to this call's arguments)
             rs_ = P.root(t)
@@ -524,3 +530,29 @@ def cancel_always_enqueues(ctx, tag):
         R.ob(tag, ('RequestCancellation::' + m.npath.split('::')[-1], 'queues the id unconditionally'), unb and every and own,
              'a requested cancellation is always queued: the id parameter is sent on an unbounded queue on every path (the callers are Drop impls and cannot retry)',
              [m.loc(t)], 'unbounded queue: %s; on every path: %s; id is the parameter: %s' % (unb, every, own))
+
+
+def returns_at_most(F, P, g):
+    """parameters k of the local function g such that on every return path the value returned is parameter k itself or a value v returned under the
+    dominating fact v <= parameter k (a hand-written `min`): g's result never exceeds that argument"""
+    sites = []
+    for i, j, s_ in g.stmts():
+        if s_['pl']['l'] == 0 and not s_['pl']['p'] and s_['rv']['k'] == 'use':
+            sites.append((i, P.operand(g, s_['rv']['op'], at=i)))
+    if not sites:
+        return []
+    out = []
+    same = lambda x, y: {(P.unbound(r), norm_path(p)) for r, p in P.root(x, inline=False)} == {(P.unbound(r), norm_path(p)) for r, p in P.root(y, inline=False)} and bool(P.root(x, inline=False))
+    for k in range(1, g.argc + 1):
+        lim = ('param', g.id, k)
+        ok = True
+        for i, v in sites:
+            if same(v, lim):
+                continue
+            facts = cmp_facts(F, P, g, i)
+            if any((op in ('Le', 'Lt') and same(a, v) and same(b, lim)) or (op in ('Ge', 'Gt') and same(b, v) and same(a, lim)) for op, a, b, _ in facts):
+                continue
+            ok = False
+        if ok:
+            out.append(k)
+    return out
